@@ -12,6 +12,7 @@ OL_FOR_TMP: _ol_reserved_name = "__ol_for_{}"
 OL_ITER_WRAPPER: _ol_reserved_name = "__ol_iter_wrapper"  # don't need format here
 OL_ASSIGN_TMP: _ol_reserved_name = "__ol_assign_{}"
 OL_AUGASSIGN_TMP: _ol_reserved_name = "__ol_augass_{}"
+OL_AUGASSIGN_OBJ_TMP: _ol_reserved_name = "__ol_augobj_{}"
 OL_AUGASSIGN_SLICE_TMP: _ol_reserved_name = "__ol_sllice_{}"
 OL_RETURN_VALUE: _ol_reserved_name = "__ol_retv_{}"
 OL_RETURN: _ol_reserved_name = "__ol_ret_{}"
